@@ -6,6 +6,7 @@
 
 #[path = "../../harness/oracle.rs"]
 mod oracle;
+mod file_kind;
 mod serve_kind;
 mod stream_kind;
 mod textparse;
@@ -22,6 +23,7 @@ fn main() {
         "serve" => serve_kind::run(&sc),
         "should_gzip" => stream_kind::run_should_gzip(&sc),
         "streaming" => stream_kind::run_streaming(&sc),
+        "file" => file_kind::run(&sc),
         k => json!({"error": format!("unknown scenario kind {k:?}")}),
     };
     println!("{}", serde_json::to_string(&out).unwrap());
